@@ -145,8 +145,11 @@ func (s *ServerDnsListener) closeConnection(u *userConnection) error {
 	s.usersLock.Lock()
 	defer s.usersLock.Unlock()
 
-	_, err := s.validateAndGetUser(u.UserId, u.remoteAddress)
-	if err == commands.BadUser {
+	user, err := s.validateAndGetUser(u.UserId, u.remoteAddress)
+	if err == nil && user != u {
+		// The slot has been re-used by a newer session from the same address; u is already retired
+		return nil
+	} else if err == commands.BadUser {
 		// Connection already closed
 		return nil
 	} else if err == commands.BadIp {
